@@ -11,7 +11,8 @@ Import ListNotations.
     the run-time form reads them while the checker re-infers: by, rows, each, inventory, repeat;
     operands of iterating modifiers and switch branches leave the hidden context stack alone; every
     switch branch fits the switch's signature; validated on real compiler output on every run; try with
-    ANY number of handlers, both/un-both and on with numeric subscripts are inside), every fuel and every run-time state whose stack holds at least
+    ANY number of handlers, both/un-both and on with numeric subscripts, and do-loops whose body undoes
+    what the condition leaves are inside), every fuel and every run-time state whose stack holds at least
     [sa sg] values: the run either fails or consumes exactly the top [sa sg] values, produces
     [so sg], leaves everything beneath untouched (on the stack and on the hidden context stack), and
     restores the fill stack, the fill boundaries and the call depth.  At a failure point the values
@@ -88,6 +89,15 @@ Example C02_nonvacuous_iter :
                 Switch [(Sig 1 1 0 0, Prim 8 1 1); (Sig 1 1 0 0, Prim 19 1 1)] (Sig 1 1 0 0) false] in
   asm_okb [] = true /\ tree_okb [] n = true /\ node_sig n = Some (Sig 0 2 0 0) /\
   zrun 50 [] n = (0%N, [9%Z; 9%Z], 0%N).
+Proof. vm_compute. repeat split; reflexivity. Qed.
+
+(** non-vacuity for do and try with two handlers: ⍢(+1|<5) 0 runs five rounds; the three-function
+    try of Model/TryPre.v meets the premises *)
+Example C02_nonvacuous_do :
+  let n := Run [Push (SInt 0);
+                Mod MDo [(Sig 1 1 0 0, Run [Push (SInt 1); Prim 5 2 1]); (Sig 1 1 0 0, Run [Push (SInt 5); Prim 10 2 1])]] in
+  asm_okb [] = true /\ tree_okb [] n = true /\ node_sig n = Some (Sig 0 1 0 0) /\
+  zrun 50 [] n = (0%N, [5%Z], 0%N).
 Proof. vm_compute. repeat split; reflexivity. Qed.
 
 Print Assumptions C02_sig_sound.
